@@ -199,6 +199,11 @@ func (fr *Frame) evalC(e *CExpr, env *Env, hint *Sort) *GVal {
 			}
 		}
 		switch e.Name {
+		case `\errSeen`:
+			if es := env.st.ghost["errSeen"]; es != nil {
+				return tv(es)
+			}
+			return tv(TFalse)
 		case "MaxInt":
 			return tv(maxInt)
 		case "MinInt":
@@ -358,7 +363,15 @@ func (fr *Frame) evalField(base *GVal, name string, env *Env, e *CExpr) *GVal {
 				ex.st = env.st
 				t := fr.load(&Ptr{Ref: base.T, RefTy: n.Obj().Name(), Path: []PathElem{{Field: name}}})
 				ex.st = saved
-				return tv(t)
+				g := tv(t)
+				if st, ok := n.Underlying().(*types.Struct); ok {
+					for k := 0; k < st.NumFields(); k++ {
+						if st.Field(k).Name() == name {
+							g.Typ = st.Field(k).Type()
+						}
+					}
+				}
+				return g
 			}
 		}
 	}
